@@ -163,7 +163,7 @@ fn sample_desc(rng: &mut crate::rng::Rng, c: Cons) -> (u8, char) {
 
 pub fn run(ctx: &Ctx, replay: Option<&J>) -> CheckResult {
     let rule = "exhaustive: 7 constellations x band 0..=255 x attribute U+0000..U+00FF (458752 descriptors) + 100000 sampled other characters: is_valid(d) <=> d in the pinned \
-        RTCM/RINEX table; every recognised descriptor and every descriptor of bands 0..=9 x all Latin-1 attributes plus sampled others through a one-cell MSM1 message: recognised => \
+        RTCM/RINEX table; every recognised descriptor and every descriptor of bands 0..=9 x all Latin-1 attributes plus sampled others and the arithmetic neighbourhood of every recognised descriptor (band +-1, +-2, +-16, +128; attribute code point +-2^j and bit j flipped for j=0..20, case flipped) through a one-cell MSM1 message: recognised => \
         exactly one signal-mask bit, at the pinned position (2..32), decoding back to d (bijection counted both ways); unrecognised => InvalidSignalId. order: all pairs and \
         triples of recognised descriptors, all (recognised, near-miss) pairs, and seeded random triples: recognised compare by position, unrecognised after them, reflexive / \
         antisymmetric / transitive / consistent with ==, partial_cmp == Some(cmp) on recognised pairs. all cases non-trivial; distinct by construction (enumeration) or by hash (samples)"
@@ -259,6 +259,49 @@ pub fn run(ctx: &Ctx, replay: Option<&J>) -> CheckResult {
     });
     ev.merge(sev);
     vs.extend(svs);
+    // ---- neighbourhood of every recognised descriptor: band +-d and attribute code point +- 2^j (incl. combinations) ----
+    for c in ALL_CONS {
+        for (_, b, a) in c.table() {
+            let mut cands: Vec<(u8, char)> = Vec::new();
+            let a0 = *a as u32;
+            let mut codes: Vec<u32> = vec![a0, a0 ^ 0x20];
+            for j in 0..21 {
+                codes.push(a0.wrapping_add(1 << j));
+                codes.push(a0.wrapping_sub(1 << j));
+                codes.push(a0 ^ (1 << j));
+            }
+            for db in [-2i32, -1, 0, 1, 2, 16, -16, 128] {
+                let band = (*b as i32 + db).rem_euclid(256) as u8;
+                for cp in &codes {
+                    if let Some(ch) = char::from_u32(*cp) {
+                        cands.push((band, ch));
+                    }
+                }
+            }
+            cands.sort();
+            cands.dedup();
+            for d in cands {
+                ev.evaluations += 1;
+                match membership(c, d) {
+                    Ok(()) => {
+                        ev.nontrivial_hash(hash_u64s(&[c.base() as u64, d.0 as u64, d.1 as u64, 99]));
+                        ev.class("membership/neighbourhood-of-recognised");
+                    }
+                    Err((sig, msg)) => {
+                        if !vs.iter().any(|v: &Violation| v.signature == sig) {
+                            vs.push(viol(sig, msg, c, &[d]));
+                        }
+                    }
+                }
+                // order against its origin
+                if let Err((sig, msg)) = order_oracle(c, (*b, *a), d, (*b, *a)) {
+                    if !vs.iter().any(|v: &Violation| v.signature == sig) {
+                        vs.push(viol(sig, msg, c, &[(*b, *a), d, (*b, *a)]));
+                    }
+                }
+            }
+        }
+    }
     // ---- bijection: recognised descriptors <-> positions ----
     for c in ALL_CONS {
         let t = c.table();
